@@ -613,7 +613,12 @@ class OrConstraint(AbstractConstraint):
                     ],
                 ]
                 yield Constraint(
-                    varname, ConstraintType.one_of, True, list(set(constraints))
+                    varname,
+                    ConstraintType.one_of,
+                    True,
+                    # Deduplicate, but keep the order of the operands (constraints
+                    # hash by identity, so a set would make the order arbitrary).
+                    list(dict.fromkeys(constraints)),
                 )
 
     def _constraint_from_list(
